@@ -188,7 +188,7 @@ func (g *Gen) genNode(depth int, keyable bool) *Node {
 		} else {
 			k = vx.Pick(r, []Kind{KStruct, KStruct, KStruct, KSlice, KSlice, KArr, KMap, KMap, KIface, KPtr})
 		}
-		if keyable && (k == KBytes || k == KSlice || k == KMap || k == KU256 || k == KTime || k == KIface || k == KPtr) {
+		if keyable && (k == KArr || k == KBytes || k == KSlice || k == KMap || k == KU256 || k == KTime || k == KIface || k == KPtr) {
 			continue
 		}
 		n := &Node{K: k, Depth: depth}
@@ -445,7 +445,7 @@ func (g *Gen) genIface(depth int) *ifaceInfo {
 	defer func() { g.inProgress[t] = false }()
 	na := 1 + g.r.Intn(3)
 	used := map[uint32]bool{}
-	for i := 0; i < na; i++ {
+	for tries := 0; len(inf.Alts) < na && tries < 30; tries++ {
 		st := g.genStruct(maxInt(depth, g.maxDepth-1))
 		ts := g.reg(st.T)
 		if ts.Code != nil && (ts.Code.Is32 != inf.Den32 || used[ts.Code.C]) {
